@@ -35,6 +35,9 @@ func init() {
 			{"C13.R11", "q", "collision table persistence: dump/load pair and serialised fields", c13r11},
 			{"C13.R12", "q", "collision table replacement rule (new key, GC move, not-lower position)", c13r12},
 			{"C14.R15", "q", "shared: merge heap interface", c14r15},
+			{"C13.R13", "q", "a failed hint lookup ends the search with its error", c13r13},
+			{"C14.R17", "q", "shared: collision table compare-and-set is one critical section", c14r17},
+			{"C14.R14", "q", "shared: split dump discipline", c14r14},
 		},
 	})
 }
